@@ -449,6 +449,13 @@ pub fn run(ctx: &Ctx) -> Finish {
             ("kind-semi-integer", 4, Some((0.0, 3.0)), ENC_ID),
             ("kind-semi-continuous", 5, Some((0.0, 3.0)), ENC_ID),
             ("kind-unspecified", 0, Some((0.0, 3.0)), ENC_ID),
+            // the kind rule does not depend on how many integers the bound holds
+            ("kind-binary-single-integer", KIND_BINARY, Some((1.0, 1.0)), ENC_ID),
+            ("kind-continuous-single-integer", KIND_CONTINUOUS, Some((2.0, 2.0)), ENC_ID),
+            ("kind-continuous-single-integer-fractional-bound", KIND_CONTINUOUS, Some((1.5, 2.5)), ENC_ID),
+            ("kind-semi-integer-single-integer", 4, Some((2.0, 2.0)), ENC_ID),
+            ("kind-semi-continuous-single-integer", 5, Some((1.5, 2.5)), ENC_ID),
+            ("kind-unspecified-single-integer", 0, Some((2.0, 2.0)), ENC_ID),
             ("bound-absent", KIND_INTEGER, None, ENC_ID),
             ("no-integer-in-bound", KIND_INTEGER, Some((0.2, 0.8)), ENC_ID),
             ("bound-nan", KIND_INTEGER, Some((nan, nan)), ENC_ID),
